@@ -35,6 +35,7 @@ ASSUMPTIONS = [
 SHARDS = {"quick": 8, "thorough": 16}
 MIN_REACH = {
     "figures_judged": {"quick": 300, "thorough": 5000},
+    "figures_whose_dimensions_are_named_like_selection_keywords": {"quick": 20, "thorough": 350},
     "series_compared": {"quick": 1200, "thorough": 20000},
     "colors_compared": {"quick": 500, "thorough": 8000},
     "scatter_colors_compared_on_a_log_scale": {"quick": 40, "thorough": 600},
@@ -528,6 +529,18 @@ def run_case(ctx, case):
             kw["row"] = "r"
         if "c" in ds.dims:
             kw["col"] = "c"
+    # NAME COLLISION: the dimensions are called like keywords of xarray's own selection methods (a 'tolerance' swept over, a
+    # 'method' compared, a 'drop' rate): names like any other. The library is handed the renamed dataset, the judge keeps
+    # reading the data through the harness's own names
+    nm = {"z": "z", "r": "r", "c": "c"}
+    ds_call = ds
+    if case["dseed"] % 4 == 2 and base in ("histogram", "lineplot", "scatter", "heatmap"):
+        nm = {"z": "tolerance", "r": "method", "c": "drop"}
+        ds_call = ds.rename({k_: v_ for k_, v_ in nm.items() if k_ in ds.dims or k_ in ds.coords})
+        for k_ in ("row", "col"):
+            if k_ in kw:
+                kw[k_] = nm[kw[k_]]
+        ctx.count("figures_whose_dimensions_are_named_like_selection_keywords")
     xname = "xv" if "xv" in ds else "x"
     ynames = ["y"]
     errs = []
@@ -564,7 +577,7 @@ def run_case(ctx, case):
                     kw.pop("colors", None)
                     kw["c"] = "cc"
                     o["_cline"] = True
-                fig = xyzpy.lineplot(ds, xname, "y", "z", **kw)
+                fig = xyzpy.lineplot(ds_call, xname, "y", nm["z"], **kw)
                 base = "lineplot"
             elif base == "lineplot_multivar":
                 ynames = ["y", "y2", "y3"]
@@ -608,12 +621,12 @@ def run_case(ctx, case):
                     kw["c"] = "cv"
                     o["_c"] = True
                     case = dict(case, _all_c=np.asarray(ds["cv"].values, dtype=float).ravel().tolist())
-                fig = xyzpy.scatter(ds, xname, "y", "z", **kw)
+                fig = xyzpy.scatter(ds_call, xname, "y", nm["z"], **kw)
             elif base == "histogram":
-                fig = xyzpy.histogram(ds, "y", "z", **kw)
+                fig = xyzpy.histogram(ds_call, "y", nm["z"], **kw)
             elif base == "heatmap":
                 hk = {k: v for k, v in kw.items() if k in ("colormap", "colormap_reverse", "title", "row", "col", "colorbar", "vmin", "vmax")}
-                fig = xyzpy.heatmap(ds, "x", "z", "y", **hk)
+                fig = xyzpy.heatmap(ds_call, "x", nm["z"], "y", **{k_: (nm.get(v_, v_) if k_ in ("row", "col") and nm["z"] != "z" and v_ in ("r", "c") else v_) for k_, v_ in hk.items()})
             elif base == "auto_lineplot":
                 o = {k: v for k, v in o.items() if k in ("colors", "colormap", "colormap_reverse", "markers", "legend")}
                 fig = xyzpy.auto_lineplot(_auto_x(case, ds), ds["y"].transpose("z", "x").values, **o)
@@ -688,12 +701,12 @@ def run_case(ctx, case):
                     bad.extend("panel (row %r, col %r): %s" % (rv, cv, m) for m in b[:1])
                     if i == 0 and cv is not None:
                         ctx.count("panel_titles_read_back")
-                        d = _names_coordinate(ax.get_title(), "c", cv)
+                        d = _names_coordinate(ax.get_title(), nm["c"], cv)
                         if d:
                             bad.append("panel (0, %d) is titled %r: %s" % (j, ax.get_title(), d))
                     if j == len(cols) - 1 and rv is not None:
                         ctx.count("panel_titles_read_back")
-                        d = _names_coordinate(ax.get_ylabel(), "r", rv)
+                        d = _names_coordinate(ax.get_ylabel(), nm["r"], rv)
                         if d:
                             bad.append("panel (%d, last) is labelled %r: %s" % (i, ax.get_ylabel(), d))
         else:
